@@ -6,7 +6,7 @@ from harness import common, gen_tree, trees, treeimpl
 from harness.common import cps, uncps
 from harness.props.c01 import model_verify, all_texts
 
-BRIDGE = ('Gemato.Bridge.Tree', 'Gemato.Bridge.SrcWalk', 'Gemato.Bridge.SrcVerify', 'Gemato.Bridge.SrcLoader')
+BRIDGE = ('Gemato.Bridge.Tree', 'Gemato.Bridge.SrcWalk', 'Gemato.Bridge.SrcVerify', 'Gemato.Bridge.SrcLoader', 'Gemato.Bridge.SrcCli')
 PROPS = ['Gemato.Props.C07', 'Gemato.Props.C01b']
 
 
